@@ -1,25 +1,62 @@
 (* C09 — peer authentication cannot be bypassed.  Final statements only.
-   Model: the guard lists of Tls/Handshake.v (checks on the way to `ret = 1` of the six
-   handshake drivers, in source order).  Whether the C drivers indeed perform these checks with
-   these meanings is what the run-time defect matrix of the check observes. *)
-From GmVerif Require Import Base.ListX Base.Bytes Tls.Handshake Tls.HandshakeProofs.
+   Model: Tls/GuardSites.v -- for each of the six handshake drivers the ordered list of guards on
+   the way to its single success exit.  On every run the check extracts the same list from the
+   clang AST of the current sources (tools/guard_sites.py -> coq/Gen/GuardSitesTable*.v) and proves
+   [guard_diff extracted expected = []] for all six drivers (obligation C09_source_guards_match_model,
+   generated; by C09_guard_diff_sound it means the lists are equal row for row).  The run-time
+   defect matrix additionally observes that the guards mean what their names say. *)
+From Coq Require Import String List Bool.
+From GmVerif Require Import Tls.GuardSites Tls.GuardSitesProofs.
+Import ListNotations.
+Local Open Scope string_scope.
 
-(* TLS 1.2 / TLS 1.3 client: done => chain validated, signature over the key-exchange parameters
-   / transcript verified under the leaf key, server Finished matched *)
-Theorem C09_tls_client_done_guards : forall c, tls_client_done c = true ->
-  cc_chain c = true /\ cc_sig c = true /\ cc_finished c = true.
-Proof. exact tls_client_done_guards. Qed.
-Print Assumptions C09_tls_client_done_guards.
+(* the driver returned 1 => every tested guard whose enclosing conditions held at run time passed *)
+Theorem C09_done_implies_guards_passed : forall l v cond, driver_done l v cond = true ->
+  forall c t x, has_guard l c t x = true -> is_tested t = true -> forallb cond x = true ->
+  exists j, nth_error l j = Some ("guard", c, t, x) /\ v j = true.
+Proof. exact driver_done_guard. Qed.
+Print Assumptions C09_done_implies_guards_passed.
 
-(* TLCP client configured with trust anchors: the same *)
-Theorem C09_tlcp_client_done_guards : forall c, tlcp_client_done c = true -> cc_anchors c = true ->
-  cc_chain c = true /\ cc_sig c = true /\ cc_finished c = true.
-Proof. exact tlcp_client_done_guards. Qed.
-Print Assumptions C09_tlcp_client_done_guards.
+(* each driver's list: one success exit, last, at top level; every guard tested by an aborting
+   `if`; and it contains chain validation, the signature / CertificateVerify check and the Finished
+   comparison -- at top level for the TLS 1.2 / 1.3 clients, under the anchors-configured
+   condition for the TLCP client's chain check, under the client-authentication condition for the
+   servers (together with the non-empty-certificate test x509_certs_get_cert_by_index(.., 0, ..)) *)
+Theorem C09_required_guards_present :
+  (well_formed tlcp_do_connect_guards &&
+   has_guard tlcp_do_connect_guards "x509_certs_verify_tlcp" "!=1" [ANCH] &&
+   has_guard tlcp_do_connect_guards "sm2_verify_finish" "!=1" [] &&
+   has_guard tlcp_do_connect_guards "memcmp" "!=0" []) &&
+  (well_formed tls12_do_connect_guards &&
+   has_guard tls12_do_connect_guards "x509_certs_verify" "!=1" [] &&
+   has_guard tls12_do_connect_guards "tls_verify_server_ecdh_params" "!=1" [] &&
+   has_guard tls12_do_connect_guards "memcmp" "!=0" []) &&
+  (well_formed tls13_do_connect_guards &&
+   has_guard tls13_do_connect_guards "x509_certs_verify" "!=1" [] &&
+   has_guard tls13_do_connect_guards "tls13_verify_certificate_verify" "!=1" [] &&
+   has_guard tls13_do_connect_guards "memcmp" "!=0" []) &&
+  (well_formed tlcp_do_accept_guards &&
+   has_guard tlcp_do_accept_guards "tls_record_get_handshake_certificate" "!=1" [ANCH] &&
+   has_guard tlcp_do_accept_guards "x509_certs_verify" "!=1" [ANCH] &&
+   has_guard tlcp_do_accept_guards "x509_certs_get_cert_by_index" "!=1" [CAUTH] &&
+   has_guard tlcp_do_accept_guards "sm2_verify_finish" "!=1" [CAUTH] &&
+   has_guard tlcp_do_accept_guards "memcmp" "!=0" []) &&
+  (well_formed tls12_do_accept_guards &&
+   has_guard tls12_do_accept_guards "tls_record_get_handshake_certificate" "!=1" [ANCH] &&
+   has_guard tls12_do_accept_guards "x509_certs_verify" "!=1" [ANCH] &&
+   has_guard tls12_do_accept_guards "x509_certs_get_cert_by_index" "!=1" [CAUTH] &&
+   has_guard tls12_do_accept_guards "tls_client_verify_finish" "!=1" [CAUTH] &&
+   has_guard tls12_do_accept_guards "memcmp" "!=0" []) &&
+  (well_formed tls13_do_accept_guards &&
+   has_guard tls13_do_accept_guards "tls13_process_certificate_list" "!=1" [CAUTH] &&
+   has_guard tls13_do_accept_guards "x509_certs_get_cert_by_index" "!=1" [CAUTH] &&
+   has_guard tls13_do_accept_guards "x509_certs_verify" "!=1" [CAUTH] &&
+   has_guard tls13_do_accept_guards "tls13_verify_certificate_verify" "!=1" [CAUTH] &&
+   has_guard tls13_do_accept_guards "memcmp" "!=0" []) = true.
+Proof. exact required_guards_present. Qed.
+Print Assumptions C09_required_guards_present.
 
-(* server configured for client authentication: done => a non-empty client chain was presented and
-   validated, CertificateVerify verified under its leaf key, client Finished matched *)
-Theorem C09_server_done_guards : forall s, server_done s = true -> sc_client_auth s = true ->
-  sc_cert_present s = true /\ sc_chain s = true /\ sc_cert_verify s = true /\ sc_finished s = true.
-Proof. exact server_done_guards. Qed.
-Print Assumptions C09_server_done_guards.
+(* the per-run comparison is sound: an empty difference = equal lists *)
+Theorem C09_guard_diff_sound : forall fn ext exp, guard_diff fn ext exp = [] -> map strip ext = exp.
+Proof. exact guard_diff_sound. Qed.
+Print Assumptions C09_guard_diff_sound.
